@@ -17,8 +17,10 @@ Definition nc_same (h' h : hstate) : Prop := nmap h' = nmap h /\ challenges h' =
 Lemma dl_nc : forall h h', nc_same h' h -> dl_below B h -> dl_below B h'.
 Proof. intros h h' [E1 E2]. apply dl_below_same; assumption. Qed.
 
-Lemma sess_get_nc : forall h na, nc_same (fst (sess_get h na)) h.
-Proof. intros h na. unfold sess_get. destruct (alist_get na (sessions h)); split; reflexivity. Qed.
+Lemma sess_get_nc : forall h na, nc_same (fst (sess_get c h na)) h.
+Proof. intros h na. destruct (sess_get_frame c h na) as (_ & A & _ & B' & _). split; assumption. Qed.
+Lemma remove_expired_sessions_nc : forall s, nc_same (hs (remove_expired_sessions c s)) (hs s).
+Proof. intros s. destruct (remove_expired_sessions_frame c s) as (_ & A & _ & B' & _). split; assumption. Qed.
 
 Lemma send_request_dl : forall s ct ext rid body,
   dl_below B (hs s) -> dl_below B (hs (fst (send_request c s ct ext rid body now))).
@@ -57,7 +59,8 @@ Lemma replay_active_requests_dl : forall s na skip,
 Proof.
   intros s na skip H. unfold replay_active_requests.
   pose proof (sess_get_nc (hs s) na) as H1.
-  destruct (sess_get (hs s) na) as [h1 se]. cbn [fst] in H1. destruct se as [se0|]; [|exact H].
+  destruct (sess_get c (hs s) na) as [h1 se]. cbn [fst] in H1.
+  destruct se as [se0|]; [|cbn [with_hs hs]; eapply dl_nc; [exact H1|exact H]].
   match goal with |- context [fold_left ?f ?l (with_hs s h1, se0, [])] =>
     assert (X : hs (fst (fst (fold_left f l (with_hs s h1, se0, [])))) = h1) end.
   { apply (fold_left_inv (fun acc : st * session * list (nonce * packet) => hs (fst (fst acc)) = h1)).
@@ -77,8 +80,11 @@ Qed.
 Lemma new_session_dl : forall s na se skip, dl_below B (hs s) -> dl_below B (hs (new_session c s na se skip now)).
 Proof.
   intros s na se skip H. unfold new_session.
+  assert (H0 : dl_below B (hs (remove_expired_sessions c s))).
+  { eapply dl_nc; [apply remove_expired_sessions_nc|exact H]. }
+  clear H. revert H0. generalize (remove_expired_sessions c s). clear s. intros s H.
   pose proof (sess_get_nc (hs s) na) as H1.
-  destruct (sess_get (hs s) na) as [h1 cur]. cbn [fst] in H1.
+  destruct (sess_get c (hs s) na) as [h1 cur]. cbn [fst] in H1.
   assert (H2 : dl_below B h1) by (eapply dl_nc; eauto).
   destruct cur as [cs|].
   - match goal with |- context [replay_active_requests c ?s1 na skip now] =>
@@ -92,7 +98,8 @@ Lemma send_response_dl : forall s na rid rb, dl_below B (hs s) -> dl_below B (hs
 Proof.
   intros s na rid rb H. unfold send_response.
   pose proof (sess_get_nc (hs s) na) as H1.
-  destruct (sess_get (hs s) na) as [h1 se]. cbn [fst] in H1. destruct se as [se|]; [|exact H].
+  destruct (sess_get c (hs s) na) as [h1 se]. cbn [fst] in H1.
+  destruct se as [se|]; [|cbn [with_hs hs]; eapply dl_nc; [exact H1|exact H]].
   pose proof (encrypt_message_hs c (with_hs s h1) na se (MResp rid rb)) as Y.
   destruct (encrypt_message c (with_hs s h1) na se (MResp rid rb)) as [[s2 se'] p].
   cbn [fst with_hs hs] in Y. cbn [send emit with_hs hs]. rewrite Y.
@@ -141,7 +148,8 @@ Lemma handle_message_dl : forall s na n aad ct, dl_below B (hs s) -> dl_below B 
 Proof.
   intros s na n aad ct H. unfold handle_message.
   pose proof (sess_get_nc (hs s) na) as H1.
-  destruct (sess_get (hs s) na) as [h1 se]. cbn [fst] in H1. destruct se as [se|]; [|exact H].
+  destruct (sess_get c (hs s) na) as [h1 se]. cbn [fst] in H1.
+  destruct se as [se|]; [|cbn [emit with_hs hs]; eapply dl_nc; [exact H1|exact H]].
   destruct (decrypt_message se n aad ct) as [se' m].
   set (s2 := with_hs (with_hs s h1) (sess_put (hs (with_hs s h1)) na se')).
   assert (H2 : dl_below B (hs s2)).
@@ -213,7 +221,7 @@ Proof.
   destruct found as [[na r]|]; [|exact H1].
   destruct (negb (N.eqb (snd na) src)).
   { cbn [with_hs hs]. apply dl_below_ar_insert; [exact H1|exact L]. }
-  destruct (rc_hs_sent r).
+  destruct (rc_hs_sent r || c_ed (rc_contact r)).
   { apply fail_request_dl. eapply dl_nc; [|exact H1]. destruct (fix_d6 c); split; reflexivity. }
   destruct (pop_pk (dr (with_hs s h1))) as [[[[cn rr] aad] eph] d']. cbn [with_hs hs].
   destruct (c_enr (rc_contact r)) as [e|].
@@ -245,8 +253,9 @@ Theorem step_dl_below : forall c h e now d B,
   (next_bound c now <= B)%N -> dl_below B h -> dl_below B (fst (step c h e now d)).
 Proof.
   intros c h e now d B LB H. rewrite step_unfold. cbn [fst].
-  apply step_event_dl; [unfold next_bound in LB; lia|].
-  apply (proj1 (proj2 (fire_due_facts c now TICK_FUEL {| hs := h; dr := d; outs := [] |})) B LB). exact H.
+  apply (step_event_dl (with_clock c now) B now).
+  { change (now + cfg_timeout c < B)%N. unfold next_bound in LB. lia. }
+  apply (proj1 (proj2 (fire_due_facts_wc c now now TICK_FUEL {| hs := h; dr := d; outs := [] |})) B LB). exact H.
 Qed.
 
 (* all event times of a run are at most T *)
